@@ -103,6 +103,7 @@ def make_trace(real, op, res, out, K=1000, tol=3, chk=('level', 'chdis'), tid=No
     iv = out['internal_variables']
     multi_node = len(real.portfolio.nodes) > 1
     steps = []
+    unreported = False
     nodes = sorted(cfg['nodes'])
     for s in range(1, cfg['T'] + 1):
         ev = dict(legs=[[fx(v, K) for v in lg] for lg in legsteps[s - 1]], rflow=[], rlvl=[], rch=[], rdis=[])
@@ -121,10 +122,14 @@ def make_trace(real, op, res, out, K=1000, tol=3, chk=('level', 'chdis'), tid=No
                 ev['rch'].append(fx(iv[nm + '_charge'].iloc[s - 1], K))
                 ev['rdis'].append(fx(-iv[nm + '_discharge'].iloc[s - 1], K))     # EAO reports discharge with negative sign
             else:
+                if a['kind'] == 'storage':
+                    unreported = True      # e.g. a storage wrapped in a ScaledAsset: no level series exists, so none is compared
                 ev['rlvl'].append(0)
                 ev['rch'].append(0)
                 ev['rdis'].append(0)
         steps.append(ev)
+    if unreported:
+        chk = tuple(x for x in chk if x not in ('level', 'chdis'))
     rdcf, cx = [], []
     m = op.mapping
     for i, a in enumerate(cfg['assets']):
